@@ -24,15 +24,17 @@ pub fn target(r: &mut Rng) -> Vec<(u32, u32)> {
         if shape == 2 {
             let n = *r.pick(&[4094u32, 4095, 4096, 4097, 4098]);
             // half as one run, half as every-other singles so that the chunk is not one interval
+            // (short blocks rather than single values: a quarter of the runs, the same populations - carving thousands of
+            // runs out of the operands of the algebra producers is quadratic in the list model)
             let first = n / 2;
             runs.push((pos as u32, first));
             pos += first as u64 + 1;
-            for _ in 0..(n - first) {
-                if pos >= base + 65536 {
-                    break;
-                }
-                runs.push((pos as u32, 1));
-                pos += 2;
+            let mut left = n - first;
+            while left > 0 && pos + 4 < base + 65536 {
+                let l = left.min(4);
+                runs.push((pos as u32, l));
+                pos += l as u64 + 2;
+                left -= l;
             }
             continue;
         }
@@ -427,7 +429,7 @@ pub fn gen_case(r: &mut Rng, out: &mut String) {
     for &(s, l) in &t {
         *per_chunk.entry(s >> 16).or_insert(0) += l as u64;
     }
-    if per_chunk.values().any(|&n| (4094..=4098).contains(&n)) && r.chance(1, 2) {
+    if per_chunk.values().any(|&n| (4094..=4098).contains(&n)) && r.chance(1, 3) {
         p1 = *r.pick(&[8u64, 8, 9]);
     }
     let mut p2 = r.below(N_PRODUCERS);
